@@ -391,10 +391,15 @@ func (l *lexer) scanName() token {
 			break
 		}
 
-		// ...or anything that looks like an operator.
+		// ...or anything that looks like an operator. The first
+		// rune of a name is exempt: next only calls scanName for
+		// runes that do not form a symbol, and stopping there
+		// would return an empty name without consuming input.
 		if lookupSymbol1(ch) > 0 || lookupSymbol2(ch) != nil {
-			l.backup()
-			break
+			if isVar || l.current-l.width > l.start {
+				l.backup()
+				break
+			}
 		}
 	}
 
